@@ -3,3 +3,6 @@
 #define HAVE_RSREF 1
 #define HAVE_GF2 1
 #define HAVE_RFC5170 1
+#define HAVE_C05 1
+#define HAVE_C06 1
+#define HAVE_C15 1
